@@ -244,6 +244,9 @@ class DDPG(RLAlgorithm):
             self.critic = create_critic()
             self.critic_target = create_critic()
 
+        self.actor_target.load_state_dict(self.actor.state_dict())
+        self.critic_target.load_state_dict(self.critic.state_dict())
+
         # Share encoders between actor and critic
         self.share_encoders = share_encoders
         if self.share_encoders and all(
@@ -253,9 +256,6 @@ class DDPG(RLAlgorithm):
 
             # Need to register a mutation hook that does this after every mutation
             self.register_mutation_hook(self.share_encoder_parameters)
-
-        self.actor_target.load_state_dict(self.actor.state_dict())
-        self.critic_target.load_state_dict(self.critic.state_dict())
 
         # Optimizers
         self.actor_optimizer = OptimizerWrapper(
@@ -282,7 +282,10 @@ class DDPG(RLAlgorithm):
         """Shares the encoder parameters between the actor and critic. Registered as a mutation hook
         when share_encoders=True."""
         if all(isinstance(net, EvolvableNetwork) for net in [self.actor, self.critic]):
-            share_encoder_parameters(self.actor, self.critic, self.critic_target)
+            # The target critic follows the encoder of the *target* actor, so that it
+            # is soft-updated like every other target weight
+            share_encoder_parameters(self.actor, self.critic)
+            share_encoder_parameters(self.actor_target, self.critic_target)
         else:
             warnings.warn(
                 "Encoder sharing is disabled as actor or critic is not an EvolvableNetwork."
